@@ -7,9 +7,11 @@ Open Scope string_scope.
 Open Scope nat_scope.
 
 Definition expl1 (p : pin) : string := join ", " (map constraint_text (p_via p)).
+Definition url1 (o : opts) (p : pin) : string := match url_w o p with Some u => " " ++ u | None => "" end.
+Definition comment1 (o : opts) (p : pin) : string := expl1 p ++ url1 o p.
 Definition data1 (o : opts) (p : pin) : string :=
   (match hash_w o p with Some h => "--hash=" ++ h ++ " " | None => "" end) ++ "#" ++
-  (match o_annot o with Some a => " [" ++ idx_text a (p_name p) ++ "]" | None => "" end) ++ " " ++ expl1 p.
+  (match o_annot o with Some a => " [" ++ idx_text a (p_name p) ++ "]" | None => "" end) ++ " " ++ comment1 o p.
 Definition line1 (o : opts) (p : pin) : string := nv p ++ " " ++ data1 o p.
 
 Lemma explanation_single p : pin_facts p -> explanation false (p_via p) = expl1 p.
@@ -20,17 +22,16 @@ Proof.
   change (map (fun c0 : string => "" ++ c0)) with (map (fun c0 : string => c0)). rewrite map_id. reflexivity.
 Qed.
 
-Lemma pin_text_single o p : o_multi o = false -> pin_facts p -> url_w o p = None ->
+Lemma pin_text_single o p : o_multi o = false -> pin_facts p ->
   pin_text o p = line1 o p ++ nl.
 Proof.
-  intros Hm F Hu. unfold pin_text, line1, data1, nv. rewrite Hm. rewrite (explanation_single p F).
-  unfold url_w in Hu. unfold hash_w.
+  intros Hm F. unfold pin_text, line1, data1, comment1, url1, url_w, nv. rewrite Hm. rewrite (explanation_single p F).
+  unfold hash_w.
   change w_cmt_single with " ". change w_pin_eq with "==". change w_hash_single with " ".
   change w_hash_opt with "--hash=". change w_cmt_open_single with " #".
-  assert ((match p_url p with Some u => if o_urls o then " " ++ u else "" | None => "" end) = "") as ->.
-  { destruct (p_url p); [destruct (o_urls o); [discriminate|reflexivity]|reflexivity]. }
   destruct (p_hash p) as [h|]; [destruct (o_hashes o && nonempty h)|]; destruct (o_annot o) as [a|];
-  rewrite ?append_nil_r; rewrite !append_assoc; cbn [append nonempty];
+  (destruct (p_url p) as [u|]; [destruct (o_urls o)|]);
+  rewrite ?append_nil_r; rewrite ?append_assoc; cbn [append nonempty];
   repeat (progress (rewrite ?append_assoc; cbn [append])); reflexivity.
 Qed.
 
@@ -195,22 +196,68 @@ Proof.
   - unfold expl1. apply last_ok_join; [|exact H3]. intros E. apply map_eq_nil in E. exact (pf_vne p F E).
 Qed.
 
+Lemma url_w_facts o p u : pin_facts p -> url_w o p = Some u ->
+  forall_chars plain u = true /\ nonempty u = true /\ url_like (fst (fst (partition_char "#"%char u))) = true.
+Proof.
+  intros F Hu. unfold url_w in Hu. destruct (p_url p) as [u'|] eqn:Eu; [|discriminate].
+  destruct (o_urls o); [|discriminate]. injection Hu as ->.
+  pose proof (pf_url p F u Eu) as H. pose proof (url_nonempty u H) as Hn. unfold url_ok in H.
+  destruct (partition_char "#"%char u) as [[base hf] frag]. cbn [fst].
+  apply andb_true_iff in H as [H _]. apply andb_true_iff in H as [H _]. apply andb_true_iff in H as [H _].
+  apply andb_true_iff in H as [H _]. apply andb_true_iff in H as [H _]. apply andb_true_iff in H as [H Hul].
+  apply andb_true_iff in H as [Hpl _]. auto.
+Qed.
+
+Lemma rpartition_hit c a b : forall_chars (neqc c) b = true -> rpartition_char c (a ++ String c b) = (a, true, b).
+Proof.
+  intros H. unfold rpartition_char. rewrite rev_str_app, rev_str_cons, append_assoc.
+  change (String c "" ++ rev_str a) with (String c (rev_str a)).
+  rewrite partition_char_hit by (rewrite forall_chars_rev; exact H). rewrite !rev_str_involutive. reflexivity.
+Qed.
+
+Lemma join_cons_ne sep h l : l <> [] -> join sep (h :: l) = h ++ sep ++ join sep l.
+Proof. destruct l; [congruence|reflexivity]. Qed.
+
+Lemma join_rev_snoc sep y x r : join sep (rev (x :: r)) ++ y = join sep (rev ((x ++ y) :: r)).
+Proof.
+  cbn [rev]. generalize (rev r) as a. induction a as [|h a IH]; cbn [List.app]; [reflexivity|].
+  rewrite !join_cons_ne by (intros E; apply app_eq_nil in E as [_ E]; discriminate).
+  rewrite !append_assoc. rewrite IH. reflexivity.
+Qed.
+
+Definition sepfree (c : string) : Prop :=
+  containsb ", " c = false /\ last_ok (fun ch => mem_ascii ch ", ") c = false.
+
 Record single_facts (o : opts) (p : pin) : Prop := {
-  sf_url : url_w o p = None;
-  sf_sep : Forall (fun c => containsb ", " c = false /\ last_ok (fun ch => mem_ascii ch ", ") c = false)
-                  (map constraint_text (p_via p));
+  sf_sep : Forall sepfree (map constraint_text (p_via p));
+  sf_take : url_w o p = None ->
+            take_url (map constraint_text (p_via p)) = (map constraint_text (p_via p), "");
+  sf_usep : forall u x r, url_w o p = Some u -> rev (p_via p) = x :: r ->
+            containsb ", " (constraint_text x ++ " " ++ u) = false /\ last_ok (fun ch => mem_ascii ch ", ") u = false;
   sf_via : o_annot o = None ->
-           startswith (" " ++ expl1 p ++ nl) " via" = false /\ prefixb "[" (expl1 p) = false
+           startswith (comment1 o p ++ " ") "via " = false /\ prefixb "[" (expl1 p) = false
 }.
+
+Lemma one_line_comment_eq o p : pin_facts p -> one_line_comment o p = comment1 o p.
+Proof.
+  intros F. unfold one_line_comment, comment1, url1, url_w. rewrite (explanation_single p F).
+  change w_cmt_single with " ". destruct (p_url p); [destruct (o_urls o)|]; reflexivity.
+Qed.
 
 Lemma single_pin_ok_facts o p : pin_facts p -> single_pin_ok o p = true -> single_facts o p.
 Proof.
-  intros F H. unfold single_pin_ok in H. rewrite (explanation_single p F) in H.
-  change l_src_sep with ", " in H. change w_cmt_single with " " in H. change l_via_sp with " via" in H.
-  apply andb_true_iff in H as [H Hv]. apply andb_true_iff in H as [Hu Hs]. constructor.
-  - unfold url_w. destruct (p_url p); [|reflexivity]. apply negb_true_iff in Hu. rewrite Hu. reflexivity.
+  intros F H. unfold single_pin_ok in H. rewrite (one_line_comment_eq o p F) in H. rewrite (explanation_single p F) in H.
+  change l_src_sep with ", " in H. change w_cmt_single with " " in H.
+  change l_via_word with "via " in H. change l_via_pad with " " in H.
+  apply andb_true_iff in H as [H Hv]. apply andb_true_iff in H as [H Hu]. apply andb_true_iff in H as [Hs Ht]. constructor.
   - rewrite forallb_forall in Hs. apply Forall_forall. intros c Hc. apply in_map_iff in Hc as [x [<- Hx]].
-    pose proof (Hs x Hx) as Hsx. apply andb_true_iff in Hsx as [A B]. apply negb_true_iff in A. apply negb_true_iff in B. auto.
+    pose proof (Hs x Hx) as Hsx. apply andb_true_iff in Hsx as [A B]. apply negb_true_iff in A. apply negb_true_iff in B. split; assumption.
+  - intros _. unfold take_url. rewrite <- map_rev. destruct (rev (p_via p)) as [|x r]; [reflexivity|]. cbn [map].
+    unfold last_token in Ht. destruct (rpartition_char " "%char (constraint_text x)) as [[h f] t].
+    apply negb_true_iff in Ht. rewrite Ht. reflexivity.
+  - intros u x r Hw Hr. rewrite Hr in Hu. unfold url_w in Hw. destruct (p_url p) as [u'|]; [|discriminate].
+    destruct (o_urls o); [|discriminate]. injection Hw as ->.
+    apply andb_true_iff in Hu as [A B]. apply negb_true_iff in A. apply negb_true_iff in B. split; assumption.
   - intros Ea. rewrite Ea in Hv. apply andb_true_iff in Hv as [A B]. apply negb_true_iff in A. apply negb_true_iff in B. auto.
 Qed.
 
@@ -368,9 +415,6 @@ Proof.
   intros F. destruct (nv_facts p F) as [H1 [_ [_ [_ [H5 _]]]]].
   eapply first_ok_nonempty. apply strip_first_alnum. unfold line1. rewrite first_ok_app by exact H5. exact H1.
 Qed.
-
-Definition mx_of (v : view) : nat :=
-  fold_right (fun p m => Nat.max (String.length (fst p)) m) 0 (map (fun p => (nv p, data1 (mkOpts false false false None [] []) p)) v).
 
 Lemma filter_all {A} (f : A -> bool) l : Forall (fun x => f x = true) l -> filter f l = l.
 Proof. induction 1 as [|x l Hx _ IH]; [reflexivity|]. cbn [filter]. rewrite Hx, IH. reflexivity. Qed.
